@@ -6,7 +6,7 @@ pid=sys.argv[1]; n=sys.argv[2] if len(sys.argv)>2 else "2"
 p=[json.loads(l) for l in open('/verif/properties.jsonl') if json.loads(l)['id']==pid][0]
 print(f"""You are helping to evaluate a verification framework for xiph/vorbis (libvorbis, the reference C implementation of Ogg Vorbis: encoder, decoder, vorbisfile). Your job is to play the role of a developer who introduces a realistic, subtle regression.
 
-You have your own scratch git worktree of the repository at /tmp/seed/{pid}/wt (pinned commit, clean). Work ONLY inside /tmp/seed/{pid}/ . Never read or write /repo or /verif (they are off limits; do not look at them at all). No network is available.
+You have your own scratch git worktree of the repository at /tmp/seed/{pid}/wt (current development head, clean). Work ONLY inside /tmp/seed/{pid}/ . Never read or write /repo or /verif (they are off limits; do not look at them at all). No network is available.
 
 Build and test the worktree like this (takes ~1-2 minutes):
   cmake -G Ninja -S /tmp/seed/{pid}/wt -B /tmp/seed/{pid}/wt/_build -DBUILD_TESTING=ON -DCMAKE_BUILD_TYPE=RelWithDebInfo -DCMAKE_C_FLAGS=-Wno-error >/dev/null
@@ -28,9 +28,9 @@ Task: produce {n} DIFFERENT source changes to the library (files under lib/ or i
 Please make the {n} changes target different mechanisms/code sites behind the property.
 
 For each change i (1..{n}) deliver, in /tmp/seed/{pid}/out/change<i>/ :
-  - patch.diff : `git diff` of the worktree for that change alone (against the pinned commit), applicable with `git apply`.
+  - patch.diff : `git diff` of the worktree for that change alone (against the worktree's HEAD), applicable with `git apply`.
   - demo.c (or demo.sh + sources): a small self-contained demonstration program that exits 0 on the ORIGINAL code and exits non-zero (printing what went wrong) WITH the change. It must generate any input it needs itself (e.g. encode noise with libvorbisenc in-process); no external files. Keep its run time under ~20 s.
   - notes.md : which part of the property it breaks, what exactly is needed for it to manifest, and the exact commands you ran with their outcomes (build, ctest summary line, demo on original => exit 0, demo with patch => non-zero).
-You must actually verify all of (a),(b): build + ctest with the patch applied, demo result with and without the patch. Important: the demo must pass on the ORIGINAL code - the original code has some pre-existing quirks, so if your demo fails on the original, narrow the demo rather than blaming the original. After finishing each change, revert the worktree (git -C /tmp/seed/{pid}/wt checkout -- .) so the changes are independent. At the end leave the worktree reverted to the pinned commit.
+You must actually verify all of (a),(b): build + ctest with the patch applied, demo result with and without the patch. Important: the demo must pass on the ORIGINAL code - the original code has some pre-existing quirks, so if your demo fails on the original, narrow the demo rather than blaming the original. After finishing each change, revert the worktree (git -C /tmp/seed/{pid}/wt checkout -- .) so the changes are independent. At the end leave the worktree reverted to its HEAD.
 
 Report back a short summary: for each change one paragraph (site, effect, trigger) and whether all verifications succeeded.""")
